@@ -708,6 +708,8 @@ func enumerate(statuses []int) []caseT {
 		}
 		cs = append(cs, caseT{Ep: ep.name, Proto: "equiv"})
 	}
+	// a kernel that takes longer than the server's (shutdown) timeout to answer: the request is still answered
+	cs = append(cs, caseT{Ep: "ReadPromise", Proto: "slow-http"}, caseT{Ep: "ReadPromise", Proto: "slow-grpc"})
 	for i, b := range malformed() {
 		cs = append(cs, caseT{Ep: b.name, Proto: "malformed", Bad: i})
 	}
@@ -799,6 +801,27 @@ func child(from, to int, factsPath, driverPath string) {
 		out.Flush()
 		e := eps[c.Ep]
 		problem := ""
+		if c.Proto == "slow-http" || c.Proto == "slow-grpc" {
+			// the front ends are configured with a timeout of one second (graceful shutdown); the kernel answers after 1.6 s
+			stub.next = func(r *t_api.Request) (*t_api.Response, error) {
+				time.Sleep(1600 * time.Millisecond)
+				return mkResponse(r.Kind, t_api.StatusOK, 1), nil
+			}
+			if c.Proto == "slow-http" {
+				res, _, herr := doHTTP(e)
+				if herr != nil {
+					problem = "a request the kernel answered after 1.6 s (server timeout 1 s) got no HTTP reply: " + herr.Error()
+				} else if res.StatusCode != 200 {
+					problem = fmt.Sprintf("a request the kernel answered OK after 1.6 s was rendered as %d", res.StatusCode)
+				}
+			} else if _, gerr := e.grpc(cl); gerr != nil {
+				problem = "a request the kernel answered after 1.6 s got a gRPC error: " + gerr.Error()
+			}
+			r, _ := json.Marshal(M{"idx": c.Idx, "key": c.key(), "problem": problem})
+			fmt.Fprintf(out, "DONE %s\n", r)
+			out.Flush()
+			continue
+		}
 		if c.Proto == "malformed" {
 			b := bads[c.Bad]
 			stub.next = func(r *t_api.Request) (*t_api.Response, error) { return mkResponse(r.Kind, t_api.StatusOK, 1), nil }
